@@ -34,6 +34,7 @@ const (
 	sE sort = "e"
 	sK sort = "k" // the key parameter
 	sP sort = "p" // the prefix parameter
+	sD sort = "d" // a decoded key (local of the consumer closure)
 )
 
 type fnTr struct {
@@ -47,6 +48,9 @@ type fnTr struct {
 	errs  []string
 	// the value parameter of Set has sort v but is not a local: remember it
 	valueParam *ast.Object
+	cbName     string // Iterate: the callback parameter
+	dirName    string // Iterate: the variadic direction parameter
+	inClosure  bool
 }
 
 func (t *fnTr) fail(n ast.Node, msg string) {
@@ -161,7 +165,36 @@ func (t *fnTr) kvCall(e ast.Expr) (string, []ast.Expr, bool) {
 
 func (t *fnTr) stmt(s ast.Stmt, results []sort) string {
 	switch s := s.(type) {
+	case *ast.DeclStmt:
+		// `var innerErr error`
+		if gd, ok := s.Decl.(*ast.GenDecl); ok && gd.Tok == token.VAR && len(gd.Specs) == 1 {
+			if vs, ok := gd.Specs[0].(*ast.ValueSpec); ok && len(vs.Names) == 1 && len(vs.Values) == 0 {
+				if so, ok := typeSort(vs.Type); ok && so == sE {
+					t.id(vs.Names[0], sE)
+
+					return ".skip"
+				}
+			}
+		}
+		t.fail(s, "unsupported declaration (only `var x error`)")
+
+		return ".skip"
 	case *ast.IfStmt:
+		if s.Init != nil && s.Else == nil && !t.inClosure {
+			// `if e := t.kv.Iterate(prefix, func(key Key, value Value) bool { … }, direction...); e != nil { … }`
+			if as, ok := s.Init.(*ast.AssignStmt); ok && as.Tok == token.DEFINE && len(as.Lhs) == 1 && len(as.Rhs) == 1 {
+				if it, ok := t.iterate(as); ok {
+					if b, ok := s.Cond.(*ast.BinaryExpr); ok && b.Op == token.NEQ && isNil(b.Y) {
+						if n, ok := t.varOf(b.X, sE); ok {
+							return seq([]string{it, fmt.Sprintf("(.ifErr %d\n %s)", n, t.block(s.Body, results))})
+						}
+					}
+				}
+			}
+			t.fail(s, "unsupported if statement with an init clause")
+
+			return ".skip"
+		}
 		if s.Init == nil && s.Else == nil {
 			if b, ok := s.Cond.(*ast.BinaryExpr); ok && b.Op == token.NEQ && isNil(b.Y) {
 				if n, ok := t.varOf(b.X, sE); ok {
@@ -182,7 +215,70 @@ func (t *fnTr) stmt(s ast.Stmt, results []sort) string {
 	return ".skip"
 }
 
+// iterate translates `e := t.kv.Iterate(prefix, func(key Key, value Value) bool { … }, direction...)`.
+func (t *fnTr) iterate(as *ast.AssignStmt) (string, bool) {
+	name, args, ok := t.kvCall(as.Rhs[0])
+	call, _ := as.Rhs[0].(*ast.CallExpr)
+	if !ok || name != "Iterate" || len(args) != 3 || !call.Ellipsis.IsValid() {
+		return "", false
+	}
+	if _, ok := t.varOf(args[0], sP); !ok {
+		return "", false
+	}
+	if id, ok := args[2].(*ast.Ident); !ok || id.Name != t.dirName || t.dirName == "" {
+		return "", false
+	}
+	fl, ok := args[1].(*ast.FuncLit)
+	if !ok || fl.Type.Results == nil || len(fl.Type.Results.List) != 1 {
+		return "", false
+	}
+	if so, ok := typeSort(fl.Type.Results.List[0].Type); !ok || so != sB {
+		return "", false
+	}
+	var ps []int
+	for _, p := range fl.Type.Params.List {
+		so, ok := typeSort(p.Type)
+		if !ok || so != sY {
+			return "", false
+		}
+		for _, n := range p.Names {
+			ps = append(ps, t.id(n, sY))
+		}
+	}
+	if len(ps) != 2 {
+		return "", false
+	}
+	t.inClosure = true
+	body := t.block(fl.Body, []sort{sB})
+	t.inClosure = false
+	l, ok := t.lhs(as, sE)
+	if !ok {
+		return "", false
+	}
+
+	return fmt.Sprintf("(.iter %d %d\n %s\n %d)", ps[0], ps[1], body, l[0]), true
+}
+
 func (t *fnTr) ret(s *ast.ReturnStmt, results []sort) string {
+	if t.inClosure {
+		if len(s.Results) == 1 {
+			if id, ok := s.Results[0].(*ast.Ident); ok && id.Obj == nil && (id.Name == "false" || id.Name == "true") {
+				return fmt.Sprintf("(.retAdv %s)", id.Name)
+			}
+			if c, ok := s.Results[0].(*ast.CallExpr); ok && len(c.Args) == 2 && !c.Ellipsis.IsValid() {
+				if f, ok := c.Fun.(*ast.Ident); ok && f.Name == t.cbName && t.cbName != "" {
+					k, ok1 := t.varOf(c.Args[0], sD)
+					v, ok2 := t.varOf(c.Args[1], sV)
+					if ok1 && ok2 {
+						return fmt.Sprintf("(.retCb %d %d)", k, v)
+					}
+				}
+			}
+		}
+		t.fail(s, "unsupported return in the consumer closure")
+
+		return ".skip"
+	}
 	// tail calls into the store
 	if len(s.Results) == 1 {
 		if name, args, ok := t.kvCall(s.Results[0]); ok {
@@ -253,6 +349,14 @@ func (t *fnTr) assign(s *ast.AssignStmt) string {
 	}
 	call, ok := s.Rhs[0].(*ast.CallExpr)
 	if !ok {
+		// `innerErr = keyErr`
+		if s.Tok == token.ASSIGN && len(s.Lhs) == 1 {
+			if src, ok := t.varOf(s.Rhs[0], sE); ok {
+				if dst, ok := t.varOf(s.Lhs[0], sE); ok {
+					return fmt.Sprintf("(.setE %d (.var %d))", dst, src)
+				}
+			}
+		}
 		t.fail(s, "unsupported assignment (not a call)")
 
 		return ".skip"
@@ -298,6 +402,12 @@ func (t *fnTr) assign(s *ast.AssignStmt) string {
 					return fmt.Sprintf("(.encVal %d %d)", l[0], l[1])
 				}
 			}
+		case t.sel(call.Fun, "bytesToKey"):
+			if y, ok := t.varOf(call.Args[0], sY); ok {
+				if l, ok := t.lhs(s, sD, "", sE); ok {
+					return fmt.Sprintf("(.decKey %d %d %d)", y, l[0], l[2])
+				}
+			}
 		case t.sel(call.Fun, "bytesToValue"):
 			if y, ok := t.varOf(call.Args[0], sY); ok {
 				if l, ok := t.lhs(s, sV, "", sE); ok {
@@ -324,6 +434,8 @@ func typeSort(e ast.Expr) (sort, bool) {
 			return sE, true
 		case "KeyPrefix":
 			return sP, true
+		case "Key", "Value":
+			return sY, true
 		}
 	}
 
@@ -342,6 +454,16 @@ func translate(fset *token.FileSet, fd *ast.FuncDecl) (*fnOut, []string) {
 	}
 	t.recv = fd.Recv.List[0].Names[0].Name
 	for _, p := range fd.Type.Params.List {
+		if _, ok := p.Type.(*ast.FuncType); ok && len(p.Names) == 1 {
+			t.cbName = p.Names[0].Name
+
+			continue
+		}
+		if _, ok := p.Type.(*ast.Ellipsis); ok && len(p.Names) == 1 {
+			t.dirName = p.Names[0].Name
+
+			continue
+		}
 		s, ok := typeSort(p.Type)
 		if !ok {
 			t.fail(p, "unsupported parameter type")
@@ -417,7 +539,7 @@ func main() {
 		fmt.Fprintln(os.Stderr, err)
 		os.Exit(1)
 	}
-	want := []string{"Get", "Has", "Set", "Delete", "DeletePrefix", "Clear"}
+	want := []string{"Get", "Has", "Set", "Delete", "DeletePrefix", "Clear", "Iterate"}
 	got := map[string]*fnOut{}
 	var errs []string
 	for _, d := range f.Decls {
@@ -452,7 +574,7 @@ func main() {
 		o := got[w]
 		fmt.Fprintf(&b, "/-- TypedStore.%s (typedstore.go:%d); variables: %s -/\ndef code_%s : SStmt :=\n %s\n\n", w, o.line, o.vars, w, o.body)
 	}
-	b.WriteString("def sprog : SProg :=\n  { get := code_Get, has := code_Has, set := code_Set, delete := code_Delete, deletePrefix := code_DeletePrefix, clear := code_Clear }\n\nend Hive.Gen.C06StoreCode\n")
+	b.WriteString("def sprog : SProg :=\n  { get := code_Get, has := code_Has, set := code_Set, delete := code_Delete, deletePrefix := code_DeletePrefix, clear := code_Clear, iterate := code_Iterate }\n\nend Hive.Gen.C06StoreCode\n")
 	if err := os.WriteFile(os.Args[2], []byte(b.String()), 0o644); err != nil {
 		fmt.Fprintln(os.Stderr, err)
 		os.Exit(1)
